@@ -25,6 +25,10 @@ type Inject struct {
 	At      int    `json:"at"`      // delivered just before the At-th honest message
 	Caller  string `json:"caller"`  // client | unknown | empty | bystander-peer | peer-upper | peer-prefix | peer-suffix | peer-space
 	Message string `json:"message"` // prepare | execute | contribute | commit | abort
+	// Body makes the message's body malformed: "" well-formed | empty-secret | garbage-secret |
+	// garbage-vector-entry | no-vector (contribute) | no-participants | zero-threshold (prepare) |
+	// no-confirmation (commit).  Other combinations leave the body well-formed.
+	Body string `json:"body,omitempty"`
 }
 
 // Case is an honest generation with rogue messages injected.
@@ -110,7 +114,31 @@ func run(c *Case) (*outcome, *vkit.Violation, error) {
 			sks, vvec := polynomial(int(c.T))
 			var s bls.SecretKey
 			_ = s.Set(sks, vkit.BLSID(to))
-			req = &pb.ContributeRequest{Account: account, Secret: s.Serialize(), VerificationVector: vvec}
+			cr := &pb.ContributeRequest{Account: account, Secret: s.Serialize(), VerificationVector: vvec}
+			switch in.Body {
+			case "empty-secret":
+				cr.Secret = nil
+			case "garbage-secret":
+				cr.Secret = bytes.Repeat([]byte{0xff}, 5)
+			case "garbage-vector-entry":
+				cr.VerificationVector[len(vvec)-1] = []byte{1, 2, 3}
+			case "no-vector":
+				cr.VerificationVector = nil
+			}
+			req = cr
+		}
+		switch r := req.(type) {
+		case *pb.PrepareRequest:
+			switch in.Body {
+			case "no-participants":
+				r.Participants = nil
+			case "zero-threshold":
+				r.Threshold = 0
+			}
+		case *pb.CommitRequest:
+			if in.Body == "no-confirmation" {
+				r.ConfirmationData = nil
+			}
 		}
 		m := &vkit.Msg{Kind: in.Message, To: to, Account: account, Req: req}
 		var fromName string
@@ -336,6 +364,17 @@ func TestC16(t *testing.T) {
 				Caller:  rapid.SampledFrom([]string{"client", "client", "unknown", "empty", "bystander-peer", "peer-upper", "peer-prefix", "peer-suffix", "peer-space"}).Draw(rt, "caller"),
 				Message: rapid.SampledFrom([]string{"prepare", "execute", "contribute", "commit", "abort"}).Draw(rt, "message"),
 			})
+			in := &c.Injects[len(c.Injects)-1]
+			if rapid.IntRange(0, 2).Draw(rt, "malformed") == 0 {
+				switch in.Message {
+				case "contribute":
+					in.Body = rapid.SampledFrom([]string{"empty-secret", "garbage-secret", "garbage-vector-entry", "no-vector"}).Draw(rt, "body")
+				case "prepare":
+					in.Body = rapid.SampledFrom([]string{"no-participants", "zero-threshold"}).Draw(rt, "body")
+				case "commit":
+					in.Body = "no-confirmation"
+				}
+			}
 		}
 		stop := vkit.Watch(c, 120*time.Second)
 		o, v, err := run(c)
@@ -352,6 +391,9 @@ func TestC16(t *testing.T) {
 		}
 		for _, in := range c.Injects {
 			vkit.S.Class(fmt.Sprintf("inject-%s-from-%s", in.Message, in.Caller))
+			if in.Body != "" {
+				vkit.S.Class("inject-with-malformed-body-" + in.Body)
+			}
 		}
 		if o.nonPeerWhileActive > 0 {
 			vkit.S.Nontrivial(c)
